@@ -7,6 +7,7 @@
 import Driver.Proto
 import Lace.Model.Editor
 import Lace.Spec.RefEditor
+import Lace.Model.Cmd.Reader
 namespace Lace.Driver.Edit
 open Lace Lace.Driver Lace.Editor
 
@@ -105,6 +106,67 @@ def handleK20 (toks : List String) : String :=
     | some hist, some keys, some table =>
       let cls := classifier table
       "M " ++ runModel cls hist keys ++ " ;; S " ++ runSpec cls hist keys
+    | _, _, _ => "bad-request"
+  | _ => "bad-request"
+
+
+/-! ### `U20`: a real terminal session (keys typed into a pseudo-terminal) -/
+
+/-- What the debugger echoes for the submitted lines: the lines are split and parsed by the
+command-language model (newline-joined: `;` and newline are both delimiters there); `echo`
+commands whose text starts with `@` are reported, up to the first `exit` / `quit`. -/
+def echoesOf (lines : List (List Char)) : Option (List (List Char)) :=
+  let text := (lines.map fun l => l ++ ['\n']).flatten
+  let sess := Lace.Cmd.session (Lace.Cmd.Reader.from (some text) [])
+  match sess.ending with
+  | .panic _ => none
+  | _ =>
+    let rec go : List (Option Lace.Cmd.Command) → List (List Char) → List (List Char)
+      | [], acc => acc.reverse
+      | some (.echo t) :: rest, acc => go rest (if t.head? = some '@' then t :: acc else acc)
+      | some .exit :: _, acc => acc.reverse
+      | some .quit :: _, acc => acc.reverse
+      | _ :: rest, acc => go rest acc
+    some (go sess.events [])
+
+def showSession (lines : List (List Char)) (hist : List (List Char)) : String :=
+  match echoesOf lines with
+  | none => "panic"
+  | some es => "echo=" ++ showItems es ++ " hist=" ++ showItems hist
+
+def sessionModel (cls : Char → CharClass) (hist : List (List Char)) (keys : List Key) : String := Id.run do
+  let mut t := readLineBegin (Term.new hist)
+  let mut lines : List (List Char) := []
+  for k in keys do
+    match feedKey cls t k with
+    | .panic _ => return "panic"
+    | .ok (_, t', sub) =>
+      match sub with
+      | some line => lines := lines ++ [line]
+      | none => pure ()
+      t := t'
+  return showSession lines t.hist
+
+def sessionSpec (cls : Char → CharClass) (hist : List (List Char)) (keys : List Key) : String := Id.run do
+  let mut s := RefEditor.init hist
+  let mut lines : List (List Char) := []
+  for k in keys do
+    let (_, s', sub) := RefEditor.feedKey cls s k
+    match sub with
+    | some line => lines := lines ++ [line]
+    | none => pure ()
+    s := s'
+  return showSession lines s.history
+
+/-- `U20 <history> <keys> <classes>`: `lace debug` on a terminal with these keys typed.  Answer:
+the `@`-marked echoes and the final history file. -/
+def handleU20 (toks : List String) : String :=
+  match toks with
+  | [h, k, c] =>
+    match parseList h parseItem, parseList k parseKey, parseList c parseClass with
+    | some hist, some keys, some table =>
+      let cls := classifier table
+      "M " ++ sessionModel cls hist keys ++ " ;; S " ++ sessionSpec cls hist keys
     | _, _, _ => "bad-request"
   | _ => "bad-request"
 
